@@ -32,3 +32,83 @@ def run_repo_tests(prop, files, timeout=1500):
     if n == 0:
         res["harness_error"] = "postcondition never evaluated under the repository's tests (alias not rebound?)"
     return res
+
+
+# ------------------------------------------------------------------------------------------------------------------------------
+# shadow oracles (vlib.shadow) under the repository's own tests and example scripts
+
+EXAMPLES = ["examples/minimal_example.py", "examples/footprint_example.py", "examples/multitower_example.py",
+            "examples/timeseries_example.py", "examples/parallel_example.py", "examples/visualization_example.py",
+            "examples/low_level/footprint_example.py", "examples/low_level/minimal_example.py", "examples/low_level/parallel_example.py",
+            "examples/low_level/point_measurement_example.py", "runs/low_level/source_area_example.py"]
+EXAMPLES_3D = ["examples/minimal_example_3d.py"]
+
+
+def _shadow_report(path):
+    if not os.path.exists(path):
+        return None
+    try:
+        return json.load(open(path))
+    except Exception:
+        return None
+
+
+def run_shadow(prop, part, timeout=2400):
+    """One run_case-style result for property `prop` from the shadow oracles of vlib.shadow observing either the repository's test
+    suite (part='tests') or its example scripts (part='examples').  Verdicts come from the oracles only; whether a test or a script
+    itself passes is not judged here (counted)."""
+    import shutil
+    import tempfile
+
+    env = dict(os.environ, VERIF_SHADOW_PROPS=prop)
+    reports, ran, failed = [], [], []
+    if part == "tests":
+        out = os.path.abspath(f"shadow_{prop}_tests.json")
+        tests = sorted(str(p) for p in (boot.REPO / "tests").glob("test_*.py") if p.name != "test_memory.py")
+        r = subprocess.run([sys.executable, "-m", "pytest", "-q", "-p", "no:cacheprovider", "-p", "vlib.shadow", "--timeout=1800", "-o", "addopts=", *tests],
+                           capture_output=True, text=True, timeout=timeout, env=dict(env, VERIF_MONITOR_OUT=out))
+        summary = ([l for l in r.stdout.splitlines() if " passed" in l or " failed" in l or " error" in l] or [""])[-1]
+        ran.append("pytest: " + summary)
+        rep = _shadow_report(out)
+        if rep is None:
+            return {"harness_error": "pytest under shadow oracles produced no report: " + (r.stdout[-400:] + r.stderr[-400:])}
+        reports.append(rep)
+    else:
+        scripts = EXAMPLES + (EXAMPLES_3D if prop == "C10" else [])
+        for s in scripts:
+            d = tempfile.mkdtemp(prefix="shadow-", dir=os.getcwd())
+            for sub in ("plots", "output", "logs"):
+                os.makedirs(os.path.join(d, sub), exist_ok=True)
+            out = os.path.join(d, "mon.json")
+            try:
+                r = subprocess.run([sys.executable, "-m", "vlib.shadow", str(boot.REPO / s)], capture_output=True, text=True, timeout=900, cwd=d,
+                                   env=dict(env, VERIF_MONITOR_OUT=out))
+                rep = _shadow_report(out)
+                if rep is not None:
+                    reports.append(rep)
+                    ran.append(s)
+                if rep is None or "Traceback" in r.stderr.split("Exception ignored in atexit")[0]:
+                    failed.append(s)
+            except subprocess.TimeoutExpired:
+                failed.append(s + " (timeout)")
+            finally:
+                shutil.rmtree(d, ignore_errors=True)
+    n = sum(int(rep["evals"].get(prop, 0)) for rep in reports)
+    viol = [v for rep in reports for v in rep["violations"] if v.get("property") == prop]
+    harness = [h for rep in reports for h in rep.get("harness", [])]
+    counters = {f"shadow_oracle_evaluations_under_repo_{part}": n, f"shadow_workloads_run:{part}": len(ran)}
+    for rep in reports:
+        for k, v in rep.get("counters", {}).items():
+            if k.startswith(prop):
+                counters["shadow:" + k] = counters.get("shadow:" + k, 0) + v
+    if failed:
+        counters[f"shadow_workloads_that_did_not_complete:{part}"] = len(failed)
+    res = {"evals": n, "nontrivial": n > 0, "sig": [f"shadow|{part}|{prop}|{i}" for i in range(min(n, 200))],
+           "buckets": {f"hook:shadow_oracles_under_repo_{part}": 1}, "counters": counters,
+           "violations": [dict(v, source=f"shadow oracle beside a call made by the repository's own {part}") for v in viol],
+           "sample": {"workloads": ran[:12], "not_completed": failed[:5], "oracle_evaluations": n}}
+    if harness:
+        res["harness_error"] = "shadow oracle raised internally: " + json.dumps(harness[:2])[:800]
+    elif n == 0 and part == "tests":
+        res["harness_error"] = f"shadow oracle for {prop} never evaluated under the repository's tests (alias not rebound?)"
+    return res
